@@ -229,8 +229,8 @@ def handshake_case(ctx, rng, fixed=None):
         retry.pop("open_fault", None)
         ebb3mon.call_step(world, retry)
         ctx.tag("retried connect after a rejection")
-    for name in rng.sample(sorted(ebb3mon.REQUESTS), 4):
-        ebb3mon.call_step(world, {"m": name, "a": ebb3mon.gen_args(rng, name)})
+    for name in rng.sample(sorted(ebb3mon.REQUESTS), 3) + ["command"]:
+        ebb3mon.call_step(world, {"m": name, "a": ebb3mon.gen_args(rng, name, reset_ok=True)})
     later = [e["data"].decode("latin-1") for e in world.log.since(mark) if e["kind"] == "write"]
     ctx.count("monitor:follow-up requests on rejected objects", 4)
     if any(w != "v\r" for w in later):
@@ -280,7 +280,7 @@ def second_session(ctx, rng, world, scen, min_triple):
         ctx.violation("connect() did not return False for an unsupported / non-EBB / silent device",
                       dict(witness, returned=repr(res), err=obj.err, why="second session: " + kind))
     for name in rng.sample(sorted(ebb3mon.REQUESTS), 3):
-        ebb3mon.call_step(world, {"m": name, "a": ebb3mon.gen_args(rng, name)})
+        ebb3mon.call_step(world, {"m": name, "a": ebb3mon.gen_args(rng, name, reset_ok=True)})
     later = [e["data"].decode("latin-1") for e in world.log.since(mark) if e["kind"] == "write"]
     if any(w != "v\r" for w in later):
         ctx.violation("rejected device received more than the version probe",
